@@ -4,6 +4,7 @@ import (
 	"fmt"
 	"go/ast"
 	"go/types"
+	"golang.org/x/tools/go/cfg"
 	"strings"
 
 	"golang.org/x/tools/go/packages"
@@ -370,6 +371,20 @@ func verifControlCtxZero[T any]() func(Observable[T]) Observable[T] {
 		})
 	}
 }
+
+func verifControlDeadCtxStore[T any](k, v any) func(Observable[T]) Observable[T] {
+	return func(source Observable[T]) Observable[T] {
+		return NewUnsafeObservableWithContext(func(subscriberCtx context.Context, destination Observer[T]) Teardown {
+			sub := source.SubscribeWithContext(subscriberCtx, NewObserverWithContext(
+				func(ctx context.Context, value T) {
+					destination.NextWithContext(ctx, value)
+					ctx = context.WithValue(ctx, k, v)
+				},
+				destination.ErrorWithContext, destination.CompleteWithContext))
+			return sub.Unsubscribe
+		})
+	}
+}
 `
 
 func C09() *check.Property {
@@ -378,7 +393,7 @@ func C09() *check.Property {
 		Title:    "Context flows from Subscribe through every callback and is never nil",
 		Patterns: cat(CorePatterns, PluginPkgs, []string{PromPkg}, RatePkgs),
 		Scope:    []string{ro},
-		Rules:    []check.Rule{ruleCtxProvenance(), ruleNoFreshContext(), ruleCtxPairing()},
+		Rules:    []check.Rule{ruleCtxProvenance(), ruleNoFreshContext(), ruleCtxPairing(), ruleDeadContextStore()},
 		Explanation: "Static def-use classification of every context operand. Sinks: the context argument of each upstream SubscribeWithContext and of each Next/Error/Complete notification in every subscribe closure " +
 			"(through inlined helpers and local closures), plus the same calls in the subjects, the subscriber and the connectable observable. Each operand is traced through assignments, tuple fields (lo.T2), slices/channels of tuples, " +
 			"atomic.Value, struct fields, closure and helper parameters to its origins; allowed origins are the subscriber context, the slot context, user-callback results and context.With* of those; Background/TODO/nil and " +
@@ -689,6 +704,133 @@ func inUnsetBranch(m *model.Model, p *packages.Package, call ast.Node, root ast.
 		}
 	}
 	return false
+}
+
+// DEAD-CONTEXT-STORE: a derived context that is computed and then not passed on.
+func ruleDeadContextStore() check.Rule {
+	return check.Rule{
+		Name:        "DEAD-CONTEXT-STORE",
+		Doc:         "inside a subscribe closure, every assignment of a derived context (context.With*(...) or the result of a context-aware user callback) to a local context variable is read afterwards on some path before the function ends or the variable is overwritten: a derived context that is never used means the notification that follows (or preceded it) carries the underived one, so the value the operator was asked to attach is not visible downstream",
+		NeedControl: true,
+		Run: func(c *check.Ctx) {
+			m := c.M
+			for _, sc := range m.SCs {
+				armed := c.Armed(sc)
+				info := sc.Pkg.TypesInfo
+				n := 0
+				var fns []ast.Node
+				ast.Inspect(sc.Lit, func(x ast.Node) bool {
+					if l, ok := x.(*ast.FuncLit); ok {
+						fns = append(fns, l)
+					}
+					return true
+				})
+				for _, fn := range fns {
+					body := funcBody(fn)
+					if body == nil {
+						continue
+					}
+					g := cfg.New(body, func(*ast.CallExpr) bool { return true })
+					for _, b := range g.Blocks {
+						for i, nd := range b.Nodes {
+							as, ok := nd.(*ast.AssignStmt)
+							if !ok || len(as.Rhs) == 0 {
+								continue
+							}
+							if _, isCall := ast.Unparen(as.Rhs[0]).(*ast.CallExpr); !isCall {
+								continue
+							}
+							for _, l := range as.Lhs {
+								id, ok := l.(*ast.Ident)
+								if !ok || id.Name == "_" {
+									continue
+								}
+								v, ok := objOf(info, id).(*types.Var)
+								if !ok || !model.IsContext(v.Type()) {
+									continue
+								}
+								// only variables local to this function (captured ones outlive it)
+								if !(fn.Pos() <= v.Pos() && v.Pos() <= fn.End()) {
+									continue
+								}
+								n++
+								c.Inc("derived_context_stores", 1)
+								key := fmt.Sprintf("%s/ctx-store-%s#%d", sc, v.Name(), n)
+								if readAfter(info, g, b, i, v) {
+									if armed {
+										c.OK(key, as.Pos(), "the derived context is used afterwards")
+									}
+								} else {
+									c.Report(armed, key, as.Pos(), "the context assigned to %s here is never read afterwards: the derived context is computed but what is passed on is the underived one (or was already sent)", v.Name())
+								}
+							}
+						}
+					}
+				}
+			}
+		},
+	}
+}
+
+// readAfter: some path from just after node i of block b reaches a read of v before v is overwritten.
+func readAfter(info *types.Info, g *cfg.CFG, b *cfg.Block, i int, v *types.Var) bool {
+	reads := func(n ast.Node) (read, overwritten bool) {
+		// an assignment whose only mention of v is as a plain left-hand side overwrites it
+		if as, ok := n.(*ast.AssignStmt); ok {
+			for _, r := range as.Rhs {
+				if mentionsVar(info, r, v) {
+					return true, false
+				}
+			}
+			for _, l := range as.Lhs {
+				if id, ok := l.(*ast.Ident); ok && objOf(info, id) == types.Object(v) {
+					return false, true
+				}
+				if mentionsVar(info, l, v) {
+					return true, false
+				}
+			}
+			return false, false
+		}
+		return mentionsVar(info, n, v), false
+	}
+	seen := map[int32]bool{}
+	found := false
+	var dfs func(bl *cfg.Block, from int)
+	dfs = func(bl *cfg.Block, from int) {
+		if found {
+			return
+		}
+		for _, n := range bl.Nodes[from:] {
+			r, ow := reads(n)
+			if r {
+				found = true
+				return
+			}
+			if ow {
+				return
+			}
+		}
+		for _, sc := range bl.Succs {
+			if !seen[sc.Index] {
+				seen[sc.Index] = true
+				dfs(sc, 0)
+			}
+		}
+	}
+	dfs(b, i+1)
+	return found
+}
+
+func mentionsVar(info *types.Info, n ast.Node, v *types.Var) bool {
+	found := false
+	ast.Inspect(n, func(x ast.Node) bool {
+		if id, ok := x.(*ast.Ident); ok && objOf(info, id) == types.Object(v) {
+			found = true
+		}
+		return !found
+	})
+	return found
 }
 
 // inSourceSlot: the nearest enclosing non-body context is a source slot.
